@@ -1,3 +1,6 @@
 """Stub descriptions of harness modules that must not be imported by the runner process (they patch pyrtma modules on import)."""
 C12_STUBS = ["pyrtma.parser.YAML -> stub returning the per-file dictionary of the scenario (YAML surface syntax outside the claim); the files are real files so resolve()/chdir()/is_dir() are the real ones",
              "Parser.logger -> NullLogger; Parser built without __init__'s logging handlers"]
+C17_STUBS = ["threading.Event objects of DataCollection -> flags owned by a scheduler; the methods touching them -> generator twins rebuilt from the current source (engine/cotwin.py)",
+             "data_collection.time.time -> harness clock (a deadline passes when the harness advances it)", "writer thread -> generator; write_thread.is_alive() -> True",
+             "files: real files in a scratch directory; replay: real threads with Event wrappers that park each thread until the schedule grants it the turn"]
